@@ -3,7 +3,7 @@ from functools import reduce
 import pandas as pd
 
 from elexmodel.handlers import s3
-from elexmodel.utils.constants import VALID_AGGREGATES_MAPPING
+from elexmodel.utils.constants import AGGREGATE_ORDER, VALID_AGGREGATES_MAPPING
 from elexmodel.utils.file_utils import S3_FILE_PATH, TARGET_BUCKET, convert_df_to_csv
 
 
@@ -95,12 +95,15 @@ class ModelResultsHandler:
         Create final data frames of results
         """
         for agg in self.aggregates:
-            merge_on = ["postal_code", "reporting", agg]
+            # every key column of the aggregate (e.g. postal_code, district, county_fips for a district office),
+            # otherwise groups that share the merge keys are cross joined and the remaining key columns get suffixed
+            key_columns = [col for col in self.estimates[agg][0].columns if col in AGGREGATE_ORDER]
+            merge_on = key_columns + ["reporting"]
             # joins together dfs of the same level of aggregation (different estimands)
             agg_df = reduce(lambda x, y: pd.merge(x, y, how="inner", on=merge_on), self.estimates[agg])
             self.final_results[VALID_AGGREGATES_MAPPING.get(agg)] = agg_df
         if self.include_unit_data:
-            merge_on = ["postal_code", "reporting", "geographic_unit_fips"]
+            merge_on = ["postal_code", "reporting", "geographic_unit_fips", "unit_category"]
             # joins together unit data dfs (for different estimands)
             self.final_results["unit_data"] = reduce(
                 lambda x, y: pd.merge(x, y, how="inner", on=merge_on), self.unit_data.values()
